@@ -709,3 +709,132 @@ def r_lda_default(ctx: RuleCtx, col: Collector):
                             f"wrapping in LDAWrapper is not controlled by self.{flag[0]}")
     if not found:
         col.bad(where_of(f), f.rel, line_of(f.node), "LinSolve._response: LDAWrapper wrap", "no wrapping found")
+
+
+# ------------------------------------------------------------------------------------------ convergence tests
+@rule("R-TOL-SIB", floor=3)
+def r_tol_sib(ctx: RuleCtx, col: Collector):
+    """Iterative solvers: every convergence decision compares the same measure - the residual norm relative to the norm
+    of the right-hand side, reduced with max over the right-hand sides - against the tolerance (a test relative to the
+    initial residual, or reduced with min, accepts unconverged columns)."""
+    m = ctx.model
+    for c, f in solver_methods(ctx, "solve"):
+        selfn = m.self_name(f)
+        tests = [n for n in ast.walk(f.node) if isinstance(n, ast.Compare) and len(n.ops) == 1 and
+                 norm(n.comparators[0]) == f"{selfn}.tol" and isinstance(n.left, (ast.Call, ast.Name, ast.Attribute))]
+        if len(tests) < 2:
+            continue
+        du = DefUse(f.node)
+        lefts = {norm(t.left) for t in tests}
+        measures = set()
+        for t in tests:
+            for x in ast.walk(t.left):
+                if isinstance(x, ast.Name):
+                    for d in du.defs.get(x.id, []):
+                        if isinstance(d, ast.BinOp) and isinstance(d.op, ast.Div):
+                            measures.add(norm(d))
+        reductions = {norm(t.left).split(".")[-1] for t in tests}
+        construct = f"{f.short}: {len(tests)} convergence tests against {selfn}.tol"
+        problems = []
+        if len(lefts) > 1 and len(reductions) > 1:
+            problems.append(f"different reductions {sorted(lefts)} (all right-hand sides must be converged: max)")
+        if len(measures) > 1:
+            problems.append(f"different residual measures {sorted(measures)} (the residual must be relative to the right-hand side)")
+        if any("min()" in l for l in lefts):
+            problems.append("a test uses min() over the right-hand sides")
+        if problems:
+            col.bad(where_of(f), f.rel, line_of(tests[0]), construct, "; ".join(problems))
+        else:
+            col.ok(where_of(f), f.rel, line_of(tests[0]), construct, f"measure {sorted(measures)} reduced with {sorted(reductions)}")
+        # the measure is normalised by the right-hand side
+        rhsname = f.pos_params()[0]
+        okn = bool(measures) and all(any(y in mtxt for y in (f"norm({rhsname}", "norm(b")) for mtxt in measures)
+        if okn:
+            col.ok(where_of(f), f.rel, line_of(tests[0]), f"{f.short}: residual relative to the right-hand side", "")
+        else:
+            col.bad(where_of(f), f.rel, line_of(tests[0]), f"{f.short}: residual relative to the right-hand side",
+                    f"the convergence measure {sorted(measures)} is not the residual norm divided by the norm of the "
+                    f"right-hand side: with an initial guess the solver stops while |Ax-b|/|b| is still large")
+        col.ok(where_of(f), f.rel, line_of(f.node), f"{f.short}: scanned", "")
+
+
+# ------------------------------------------------------------------------------ values of the un-transformed matrix
+@rule("R-DB-MODE", floor=2)
+def r_db_mode(ctx: RuleCtx, col: Collector):
+    """The database helper of LDAWrapper runs on the stored matrix and on its conjugate transpose: everything in it that
+    depends on matrix *values* must come from its matrix parameter.  An attribute that update() fills from the values
+    of the stored matrix (not merely from its sparsity pattern) and that the helper reads is wrong in adjoint mode."""
+    from ..dep import Taint, NONE, STRUCT, VALUE
+    m = ctx.model
+    lda, solve, update, calls = _db_calls(ctx)
+    g = calls[0][1]
+    af = _af(ctx, lda)
+    un = m.self_name(update)
+    reads = af.reads(g)
+    aparam = update.pos_params()[0]
+    for attr in sorted(reads):
+        sites = [s for s in af.sites(update) if s.attr == attr and not s.sub]
+        if not sites:
+            continue
+        lvl, how = _pattern_level(m, update, lda, sites[-1].value, aparam)
+        construct = f"LDAWrapper.{attr} (assigned in update, read in {g.short})"
+        if lvl == "VALUE":
+            col.bad("LDAWrapper", update.rel, line_of(sites[-1].stmt), construct,
+                    f"self.{attr} caches values of the stored matrix ('{stmt_key(sites[-1].stmt)}') and is read by {g.short}, "
+                    f"which is also called with the conjugate-transposed matrix: in 'T'/'H' mode for a general matrix the "
+                    f"cached values belong to the wrong matrix (e.g. un-conjugated diagonal)")
+        else:
+            col.ok("LDAWrapper", update.rel, line_of(sites[-1].stmt), construct, f"depends on the matrix only through {how}")
+
+
+def _pattern_level(m, f: FuncInfo, cls, e: ast.AST, aparam: str, du=None, seen=None, depth=0) -> Tuple[str, str]:
+    """'NONE' | 'PATTERN' (sparsity pattern / structure only) | 'VALUE' of expression e w.r.t. the matrix parameter."""
+    du = du or DefUse(f.node)
+    seen = seen if seen is not None else set()
+    if isinstance(e, ast.Name):
+        if e.id == aparam:
+            return "VALUE", "its values"
+        if e.id in seen:
+            return "NONE", ""
+        seen.add(e.id)
+        best = ("NONE", "")
+        for d in du.defs.get(e.id, []):
+            r = _pattern_level(m, f, cls, d, aparam, du, seen, depth)
+            if r[0] == "VALUE":
+                return r
+            if r[0] == "PATTERN":
+                best = r
+        return best
+    if isinstance(e, ast.Compare) and any(isinstance(c, ast.Constant) and c.value == 0 for c in e.comparators):
+        inner = _pattern_level(m, f, cls, e.left, aparam, du, seen, depth)
+        return ("PATTERN", "its sparsity pattern") if inner[0] != "NONE" else inner
+    if isinstance(e, ast.Attribute) and e.attr in ("shape", "dtype", "ndim", "size", "nnz"):
+        inner = _pattern_level(m, f, cls, e.value, aparam, du, seen, depth)
+        return ("PATTERN", "its structure") if inner[0] != "NONE" else inner
+    if isinstance(e, ast.Call) and depth < 3:
+        callees = m.resolve_call(f, e, concrete=cls)
+        if callees and all(h.cls is None for h in callees):
+            # repository function: evaluate its return expression with the parameter substituted
+            worst = ("NONE", "")
+            for h in callees:
+                ps = h.pos_params()
+                for i, a in enumerate(e.args):
+                    if i < len(ps) and _pattern_level(m, f, cls, a, aparam, du, set(seen), depth)[0] != "NONE":
+                        hdu = DefUse(h.node)
+                        for r in ast.walk(h.node):
+                            if isinstance(r, ast.Return) and r.value is not None:
+                                lv = _pattern_level(m, h, None, r.value, ps[i], hdu, set(), depth + 1)
+                                if lv[0] == "VALUE":
+                                    return lv
+                                if lv[0] == "PATTERN":
+                                    worst = lv
+            return worst
+    worst = ("NONE", "")
+    for ch in ast.iter_child_nodes(e):
+        if isinstance(ch, (ast.expr, ast.keyword)):
+            r = _pattern_level(m, f, cls, ch.value if isinstance(ch, ast.keyword) else ch, aparam, du, seen, depth)
+            if r[0] == "VALUE":
+                return r
+            if r[0] == "PATTERN":
+                worst = r
+    return worst
